@@ -22,7 +22,7 @@ mutual
     | .i32, .int i => i32Min ≤ i ∧ i ≤ i32Max
     | .i64, .int i => i64Min ≤ i ∧ i ≤ i64Max
     | .bool, .bool _ => True
-    | .ts f, .ts t => X.tsParse f t = some t ∧ isAscii t = true ∧ escape t = t
+    | .ts f, .ts t => X.tsParse f t = some t ∧ isAscii t = true ∧ escapeText t = t
     | .struct fs, .struct vs => FitsFields X fs vs
     | .union vs, .union tag v => FitsVariant X vs tag v
     | _, _ => False
@@ -306,6 +306,9 @@ theorem finish_fits (X : Ext) : ∀ (fs : Flds) (fvs : List FVal), FitsFields X 
 theorem decodeStr_escape {b : Bytes} (h : utf8Valid (escape b) = true) : decodeStr (escape b) = .ok b := by
   simp [decodeStr, h, unescape_escape]
 
+theorem decodeStr_escapeText {b : Bytes} (h : utf8Valid b = true) : decodeStr (escapeText b) = .ok b := by
+  simp [decodeStr, utf8Valid_escapeText h, unescape_escapeText]
+
 theorem decode_scalar_ok (X : Ext) (s : Sch) {evs r : List Ev} {raw : Bytes} {v : Val}
     (hs : isScalar s = true) (htext : textOf evs = .ok (raw, r)) (hval : decodeScalarText X s raw = .ok v) :
     decode X s evs = .ok (v, r) := by
@@ -334,25 +337,25 @@ mutual
     | .str, .str b, _, hfit, n, rest => by
       simp only [Fits] at hfit
       simp only [encode]
-      exact decode_scalar_text X .str _ _ n rest rfl (by simp [decodeScalarText, decodeStr_escape (utf8Valid_escape hfit), Except.map])
+      exact decode_scalar_text X .str _ _ n rest rfl (by simp [decodeScalarText, decodeStr_escapeText hfit, Except.map])
     | .enm, .str b, _, hfit, n, rest => by
       simp only [Fits] at hfit
       simp only [encode]
-      exact decode_scalar_text X .enm _ _ n rest rfl (by simp [decodeScalarText, decodeStr_escape (utf8Valid_escape hfit), Except.map])
+      exact decode_scalar_text X .enm _ _ n rest rfl (by simp [decodeScalarText, decodeStr_escapeText hfit, Except.map])
     | .i32, .int i, _, hfit, n, rest => by
       simp only [Fits] at hfit
       simp only [encode]
       exact decode_scalar_text X .i32 _ _ n rest rfl
-        (by simp [decodeScalarText, escape_fmtInt, parseInt_fmtInt hfit.1 hfit.2])
+        (by simp [decodeScalarText, escapeText_fmtInt, parseInt_fmtInt hfit.1 hfit.2])
     | .i64, .int i, _, hfit, n, rest => by
       simp only [Fits] at hfit
       simp only [encode]
       exact decode_scalar_text X .i64 _ _ n rest rfl
-        (by simp [decodeScalarText, escape_fmtInt, parseInt_fmtInt hfit.1 hfit.2])
+        (by simp [decodeScalarText, escapeText_fmtInt, parseInt_fmtInt hfit.1 hfit.2])
     | .bool, .bool b, _, _, n, rest => by
       simp only [encode]
       exact decode_scalar_text X .bool _ _ n rest rfl
-        (by simp [decodeScalarText, escape_fmtBool, parseBool_fmtBool])
+        (by simp [decodeScalarText, escapeText_fmtBool, parseBool_fmtBool])
     | .ts f, .ts t, _, hfit, n, rest => by
       simp only [Fits] at hfit
       simp only [encode]
